@@ -357,6 +357,70 @@ pub fn replay(ctx: &mut Ctx, case: &str) {
     }
 }
 
+/// the word jets whose specified function the Lean model states (`JetSpec.lean`)
+const SPEC_BASES: &[&str] = &[
+    "add", "full_add", "subtract", "full_subtract", "multiply", "full_multiply", "and", "or", "xor", "complement", "maj", "ch", "xor_xor", "eq", "lt", "le", "min", "max",
+    "median", "increment", "full_increment", "decrement", "full_decrement", "negate", "is_zero", "is_one", "some", "all", "low", "high", "one", "divide", "modulo", "div_mod",
+    "divides",
+];
+
+/// arithmetic, logic and comparison jets against their specified functions: `jetspec <name> <input
+/// bits>` → output bits (the model computes them on naturals; the implementation runs the C jet
+/// through a one-jet program on the Bit Machine)
+pub fn run_jet_specs(ctx: &mut Ctx) {
+    let env = progs::dummy_env();
+    let per_jet = ctx.scale(24, 400);
+    for j in Elements::ALL.iter().copied() {
+        let name = j.to_string();
+        let Some((base, w)) = name.rsplit_once('_') else { continue };
+        if !SPEC_BASES.contains(&base) || !["8", "16", "32", "64"].contains(&w) {
+            continue;
+        }
+        let plan = Plan { nodes: vec![PNode::Jet(j)] };
+        let Ok(red) = gen::redeem_with(&plan, &HashMap::new(), false) else { continue };
+        let src = red.arrow().source.clone();
+        let width = src.bit_width();
+        for k in 0..per_jet {
+            // boundary-dense inputs: each byte all zeros / all ones / 0x01 / 0x80 / random
+            let mut bits = vec![false; width];
+            for (bi, chunk) in bits.chunks_mut(8).enumerate() {
+                let style = if k < 6 { k } else { ctx.rng.below(8) };
+                let byte: u8 = match (style + bi as u64) % 8 {
+                    0 => 0x00,
+                    1 => 0xff,
+                    2 => 0x01,
+                    3 => 0x80,
+                    4 => 0xfe,
+                    _ => ctx.rng.next() as u8,
+                };
+                for (i, b) in chunk.iter_mut().enumerate() {
+                    *b = byte >> (7 - i) & 1 == 1;
+                }
+            }
+            if width % 8 != 0 {
+                // leading carry/borrow bit of the full_* jets
+                bits[0] = ctx.rng.bool();
+            }
+            let input = input_value(ctx, &src, &bits, false);
+            let line = format!("jetspec {} {}", name, gen::bits_text(&bits));
+            match catch(|| progs::run(&red, Some(&input), &env)) {
+                Ok(Ok(run)) => match run.outcome {
+                    Outcome::Ok(v) => {
+                        ctx.op(&line, &gen::value_compact_text(&v));
+                        ctx.case(Some(&line));
+                        ctx.count(&format!("reach:jetspec-{base}"));
+                    }
+                    Outcome::Fail(k) => ctx.fail("specified-jet-fails", &line, &format!("the jet fails ({k}) on an input of its source type")),
+                    Outcome::Other(e) => ctx.fail("specified-jet-error", &line, &e),
+                },
+                Ok(Err(e)) => ctx.note(&format!("jetspec {name}: {e}")),
+                Err(p) => ctx.fail("panic-exec", &line, &p),
+            }
+        }
+    }
+}
+
 pub fn run(ctx: &mut Ctx) {
     run_gen(ctx, false);
+    run_jet_specs(ctx);
 }
